@@ -40,7 +40,13 @@ type CLICase struct {
 	Report   string `json:"error_report,omitempty"`
 }
 
-func cliPath(root string) string { return filepath.Join(root, "bin", "ion-go-cli") }
+func cliPath(root string) string {
+	// run.sh builds every invocation's binaries into a directory of its own
+	if b := os.Getenv("VERIF_BIN"); b != "" {
+		return filepath.Join(b, "ion-go-cli")
+	}
+	return filepath.Join(root, "bin", "ion-go-cli")
+}
 
 type cliResult struct {
 	out, stderr, report []byte
